@@ -32,7 +32,7 @@ type Oblig struct {
 	All     []SolverResult
 	Trivial bool
 	SMTSize int
-	TimeMul int // timeout multiplier
+	TimeMul int  // timeout multiplier
 	Cover   bool // vacuity guard: the hypotheses must be satisfiable (expected answer: sat)
 }
 
